@@ -1,13 +1,13 @@
-package c14
+package c14x
 
 import (
 	"testing"
 
 	"verif/sim/kernel"
-	"verif/sim/rigs/c14rig"
+	"verif/sim/rigs/c14cluster"
 )
 
-func init() { kernel.Register(c14rig.Rig()) }
+func init() { kernel.Register(c14cluster.Standalone()) }
 
 func TestMain(m *testing.M) { kernel.Main(m, "C14") }
 func TestSim(t *testing.T)  { kernel.Worker(t, "C14") }
